@@ -2,7 +2,6 @@ package main
 
 import (
 	"fmt"
-	"hash/maphash"
 	"strings"
 
 	simdjson "github.com/minio/simdjson-go"
@@ -10,32 +9,47 @@ import (
 	"verif/ref"
 )
 
-var hseed = maphash.MakeSeed()
+// deterministic 64-bit hash (identical in every worker process, so distinct sets merge)
+type dhash uint64
+
+func newDhash() dhash { return 0xcbf29ce484222325 }
+
+func (h *dhash) word(v uint64) {
+	x := (uint64(*h) ^ v) * 0x9E3779B97F4A7C15
+	x ^= x >> 29
+	*h = dhash(x)
+}
+
+func (h *dhash) bytes(b []byte) {
+	for len(b) >= 8 {
+		h.word(uint64(b[0]) | uint64(b[1])<<8 | uint64(b[2])<<16 | uint64(b[3])<<24 | uint64(b[4])<<32 | uint64(b[5])<<40 | uint64(b[6])<<48 | uint64(b[7])<<56)
+		b = b[8:]
+	}
+	var t uint64
+	for i, c := range b {
+		t |= uint64(c) << (8 * uint(i))
+	}
+	h.word(t ^ uint64(len(b))<<56)
+}
 
 func hashBytes(parts ...[]byte) uint64 {
-	var h maphash.Hash
-	h.SetSeed(hseed)
+	h := newDhash()
 	for _, p := range parts {
-		h.Write(p)
-		h.WriteByte(0xfe)
+		h.bytes(p)
+		h.word(0xfefefefe)
 	}
-	return h.Sum64()
+	return uint64(h)
 }
 
 func tapeHash(pj *simdjson.ParsedJson) uint64 {
-	var h maphash.Hash
-	h.SetSeed(hseed)
-	var b [8]byte
+	h := newDhash()
 	for _, v := range pj.Tape {
-		for i := 0; i < 8; i++ {
-			b[i] = byte(v >> (8 * i))
-		}
-		h.Write(b[:])
+		h.word(v)
 	}
 	if pj.Strings != nil {
-		h.Write(pj.Strings.B)
+		h.bytes(pj.Strings.B)
 	}
-	return h.Sum64()
+	return uint64(h)
 }
 
 // parseSession keeps one reusable ParsedJson so small inputs cost ~0.4 µs instead of 35 µs.
